@@ -455,7 +455,8 @@ class AbsStack:
 
     def push(self, I, v):
         cell = M.rc_of(I, v)
-        alias = any(M.rc_of(I, x) is cell for x in self.cur)
+        alias = any(M.rc_of(I, x) is cell for x in self.cur) or cell.origin == "memo" or \
+            any(M.rc_of(I, e) is cell for e in getattr(self.ctx, "_memo_entries", lambda: [])())
         I.run.event("push", cell, "alias" if alias else "new")
         self.cur.append(v)
 
